@@ -60,6 +60,43 @@ theorem undefined_kept (t : Table) (w r : Bytes) (hw : WordName w) (hv : lookup 
   simp only [preprocReplace, scan_cons_occ w r hw, List.flatMap_cons, List.filterMap_cons, Seg.expand, Seg.undef, hv]
   simp
 
+/-- a text that starts with bytes other than `~` keeps them, and substitution goes on behind them as if the text
+started there: what stands before an occurrence never influences how it is expanded -/
+theorem plain_prefix_kept (t : Table) (p r : Bytes) (hp : ∀ c ∈ p, c ≠ tilde) :
+    (preprocReplace t (p ++ r)).1 = p ++ (preprocReplace t r).1 ∧
+    (preprocReplace t (p ++ r)).2 = (preprocReplace t r).2 := by
+  induction p with
+  | nil => exact ⟨rfl, rfl⟩
+  | cons c p ih =>
+    have hc : c ≠ tilde := hp c List.mem_cons_self
+    have ih' := ih (fun x hx => hp x (List.mem_cons_of_mem _ hx))
+    have hs : scan (c :: (p ++ r)) = Seg.lit c :: scan (p ++ r) := by
+      show scanAux (c :: (p ++ r)) 0 = _
+      simp [scanAux, hc]
+      rfl
+    simp only [preprocReplace, List.cons_append, hs, List.flatMap_cons, List.filterMap_cons, Seg.expand, Seg.undef] at ih' ⊢
+    exact ⟨by rw [ih'.1]; rfl, ih'.2⟩
+
+/-- **no `~`, no change.**  A text without any `~` is left exactly as it is, whatever the table holds, and nothing is
+reported undefined. -/
+theorem no_tilde_identity (t : Table) (s : Bytes) (hs : ∀ c ∈ s, c ≠ tilde) :
+    preprocReplace t s = (s, []) := by
+  have := plain_prefix_kept t s [] hs
+  have h0 : preprocReplace t [] = ([], []) := rfl
+  simp only [List.append_nil, h0] at this
+  exact Prod.ext this.1 this.2
+
+/-- **the text is only ever changed at defined occurrences**: with an empty table every text comes out as it went in
+(and each occurrence is reported). -/
+theorem empty_table_identity (s : Bytes) : (preprocReplace [] s).1 = s := by
+  obtain ⟨segs, _, _, hr, he, _, _, hu⟩ := subst_exact [] s
+  rw [he]
+  conv => rhs; rw [← hr]
+  congr 1
+
+example : preprocReplace [([97], [66])] [120, 32, 61, 32, 49] = ([120, 32, 61, 32, 49], []) := by decide
+example : (preprocReplace [] [126, 97, 126, 32, 126]) = ([126, 97, 126, 32, 126], [[97]]) := by decide
+
 /-- the table after the command line (`-D` in order) and the `parameter … defaults to` clauses in
 reading order answers like the plain list "defines, then defaults" searched from the front -/
 theorem table_lookup (ds : List Bytes) (ps : List (Bytes × Bytes)) (n : Bytes) :
